@@ -694,6 +694,149 @@ func v1Big(r *hx.Run, rnd *hx.Rand, n int) {
 	}
 }
 
+// ---------------------------------------------------------------------------
+// faults during the export
+
+// cutWriter accepts limit bytes and then fails (a full disk, a closed pipe).
+type cutWriter struct {
+	buf   bytes.Buffer
+	limit int
+}
+
+func (w *cutWriter) Write(p []byte) (int, error) {
+	room := w.limit - w.buf.Len()
+	if room >= len(p) {
+		return w.buf.Write(p)
+	}
+	if room > 0 {
+		w.buf.Write(p[:room])
+	} else {
+		room = 0
+	}
+	return room, fmt.Errorf("write: no space left on device")
+}
+
+// cancelLocker cancels the export's context at the moment the lock of one
+// updater is asked for (a shutdown or a deadline that arrives mid-export).
+type cancelLocker struct {
+	updater.Locker
+	key    string
+	cancel context.CancelFunc
+}
+
+func (l *cancelLocker) TryLock(ctx context.Context, key string) (context.Context, context.CancelFunc) {
+	if key == l.key {
+		l.cancel()
+	}
+	return l.Locker.TryLock(ctx, key)
+}
+
+// fetchTo runs Fetch into out with an optional Locker; "hang" if it does not return.
+func fetchTo(ctx context.Context, ds []*fakeData, out io.Writer, locker updater.Locker) string {
+	fac := &fakeFactory{ds: ds, prevFP: map[string]string{}}
+	u, err := updater.New(ctx, &updater.Options{Store: &recStore{}, Client: &http.Client{}, Factories: []driver.UpdaterFactory{fac}, Locker: locker})
+	if err != nil {
+		return "new:" + err.Error()
+	}
+	defer u.Close()
+	res := make(chan string, 1)
+	go func() {
+		res <- hx.Guard(func() string {
+			if err := u.Fetch(ctx, nil, out); err != nil {
+				return "err:" + err.Error()
+			}
+			return ""
+		})
+	}()
+	select {
+	case o := <-res:
+		return o
+	case <-time.After(20 * time.Second):
+		return "hang"
+	}
+}
+
+// v1Faults: an export that is interrupted -- its output writer fails after some
+// bytes, or its context is cancelled while updaters are still being fetched --
+// must say so (Fetch returns an error, and returns at all), and what it wrote
+// must not be importable as if it were a complete export. If Fetch returns
+// nil the export must be whole.
+func v1Faults(r *hx.Run, rnd *hx.Rand) {
+	var ds []*fakeData
+	n := 2 + rnd.Intn(10)
+	for i := 0; i < n; i++ {
+		d := &fakeData{name: fmt.Sprintf("u%02d", i), fp: fmt.Sprintf("fp-%d", i), hasV: true, hasE: i%3 == 0}
+		for k := 200 + rnd.Intn(3000); k > 0; k-- {
+			d.vulns = append(d.vulns, fmt.Sprintf("v%d", rnd.Intn(1<<30)))
+		}
+		if d.hasE {
+			d.enrich = []string{"t1", "t2"}
+		}
+		ds = append(ds, d)
+	}
+	all := map[string]bool{}
+	for _, d := range ds {
+		all[d.name] = true
+	}
+	check := func(what string, out string, written []byte, mustFail bool) {
+		switch {
+		case out == "hang":
+			r.Fail("", "v1 export: "+what+": Fetch did not return within 20 s "+describeFakes(ds))
+		case out == "panic" || strings.HasPrefix(out, "new:"):
+			r.Fail("", "v1 export: "+what+": "+out+" "+describeFakes(ds))
+		case out == "":
+			if mustFail {
+				r.Fail("", "v1 export: "+what+": Fetch returned nil "+describeFakes(ds))
+				return
+			}
+			// reported as a success: then it must be a complete export
+			calls, iout := v1Import(context.Background(), ds, written)
+			if iout != "" {
+				r.Fail("", "v1 export: "+what+": Fetch returned nil but the export does not import ("+iout+") "+describeFakes(ds))
+			} else if p := v1Check(ds, all, calls); p != "" {
+				r.Fail("", "v1 export: "+what+": Fetch returned nil but the export is not complete: "+p+" "+describeFakes(ds))
+			}
+		default:
+			// reported as a failure: what was written must not import as a success
+			calls, iout := v1Import(context.Background(), ds, written)
+			if iout == "" {
+				r.Fail("", fmt.Sprintf("v1 export: %s: Fetch failed (%s) but what it wrote imports without error (%d store calls) %s", what, out, len(calls), describeFakes(ds)))
+			}
+		}
+	}
+	// the size of the whole export
+	var full bytes.Buffer
+	if out := fetchTo(context.Background(), ds, &full, nil); out != "" {
+		r.Fail("", "v1 export failed ("+out+") "+describeFakes(ds))
+		return
+	}
+	if rnd.Chance(1, 2) {
+		limit := rnd.Intn(full.Len())
+		if rnd.Chance(1, 4) {
+			limit = full.Len() - 1 - rnd.Intn(64) // inside the central directory
+		}
+		w := &cutWriter{limit: limit}
+		out := fetchTo(context.Background(), ds, w, nil)
+		what := fmt.Sprintf("output writer fails after %d of about %d bytes", limit, full.Len())
+		r.Case("v1-fault "+what, true)
+		r.Count("v1:fault-writer=" + strings.SplitN(out+":", ":", 2)[0])
+		check(what, out, w.buf.Bytes(), true)
+	} else {
+		ctx, cancel := context.WithCancel(context.Background())
+		defer cancel()
+		key := ds[rnd.Intn(len(ds))].name
+		if rnd.Chance(1, 3) {
+			key = ds[len(ds)-1].name // the last updater handed out: the feeder has finished
+		}
+		var buf bytes.Buffer
+		out := fetchTo(ctx, ds, &buf, &cancelLocker{Locker: updater.NewLocalLockerForVerif(), key: key, cancel: cancel})
+		what := "context cancelled when the lock of " + key + " is requested"
+		r.Case("v1-fault "+what, true)
+		r.Count("v1:fault-cancel=" + strings.SplitN(out+":", ":", 2)[0])
+		check(what, out, buf.Bytes(), false)
+	}
+}
+
 func v1Scenario(r *hx.Run, rnd *hx.Rand) {
 	ctx := context.Background()
 	ds := genFakes(rnd)
